@@ -296,6 +296,206 @@ theorem romV21_section_byte_tampered (h : CryptoLaws c) (cfg : Cfg) (wf : Spec.W
     exact ⟨e, ke⟩
   · exact Or.inr kb
 
+/-! ## SB 2.1: header MAC and SHA-256 field replaced (no crypto assumption: the ROM recomputes and compares) -/
+
+/-- a V2.1 file with the header-MAC field `M` and the SHA-256 field `S` left arbitrary -/
+def file21p (c : CryptoOps) (cfg : Cfg) (M S : Bytes) : Bytes :=
+  encodeImageHdr cfg.header21 ++ M ++ keyBlob c cfg.kek cfg.dek cfg.mac ++ cfg.certBlock ++ S ++ cfg.signature ++ cfg.bsData21 c
+
+/-- the header-MAC field and the SHA-256 field as the builder writes them -/
+def hmacField21 (c : CryptoOps) (cfg : Cfg) : Bytes :=
+  hmac256 c cfg.mac (((cfg.bsData21 c).drop 16).take ((cfg.sections.head?.map Section.effHmacCount).getD 0 * 32 + 32))
+def shaField21 (c : CryptoOps) (cfg : Cfg) : Bytes := if cfg.shaPresent then c.hash .sha256 (cfg.bsData21 c) else []
+
+theorem buildV21_eq_file21p (cfg : Cfg) : buildV21 c cfg = file21p c cfg (hmacField21 c cfg) (shaField21 c cfg) := rfl
+
+theorem romV21_fields_replaced (h : CryptoLaws c) (cfg : Cfg) (wf : Spec.WF21 cfg) (M S : Bytes)
+    (lM : M.length = 32) (lS : S.length = shaLen21 cfg) :
+    (S ≠ shaField21 c cfg → Rom.romV21 c cfg.kek (file21p c cfg M S) = .error .badSha) ∧
+    (S = shaField21 c cfg → M ≠ hmacField21 c cfg → Rom.romV21 c cfg.kek (file21p c cfg M S) = .error .badHeaderMac) := by
+  have ⟨hok, hrom⟩ := header21_facts cfg wf
+  obtain ⟨wdek, wmac, wnonce, wpad, wts, wpv, wcv, wbn, wfl, wsg, wcert, wsig, wne, wsec, wlen, wmc⟩ := wf
+  have ⟨f2, f3⟩ := buildSections_length h cfg.dek cfg.mac cfg.nonce cfg.sections wsec
+    (nonceCtr cfg.nonce + cfg.bsOffset21 / 16)
+  have f4 := certBlockOk_mod _ wcert
+  have ⟨lkw, lkb, ekb⟩ := keyBlob_eq h cfg.kek cfg.dek cfg.mac wdek wmac
+  have lH : (encodeImageHdr cfg.header21).length = 96 := encodeImageHdr_length _ wnonce wpad
+  obtain ⟨p1, p2, f6, p4, f9, f10, f11, f12, p9, p10⟩ := parts7 (encodeImageHdr cfg.header21) M
+    (keyBlob c cfg.kek cfg.dek cfg.mac) cfg.certBlock S cfg.signature (cfg.bsData21 c) lH lM lkb
+  have hfile : file21p c cfg M S = encodeImageHdr cfg.header21 ++ M ++ keyBlob c cfg.kek cfg.dek cfg.mac ++ cfg.certBlock ++
+      S ++ cfg.signature ++ cfg.bsData21 c := rfl
+  rw [← hfile] at p1 p2 f6 p4 f9 f10 f11 f12 p9 p10
+  rw [lS] at p1 f10 f11 f12 p9
+  have f2' : (cfg.bsData21 c).length = Spec.sectionsLen cfg.sections := f2
+  have f1 : (file21p c cfg M S).length
+      = 208 + cfg.certBlock.length + shaLen21 cfg + cfg.signature.length + Spec.sectionsLen cfg.sections := by rw [p1, f2']
+  have f8 : Rom.slice (file21p c cfg M S) 128 72 = kwWrap c cfg.kek (cfg.dek ++ cfg.mac) := by
+    have : Rom.slice (file21p c cfg M S) 128 72 = (Rom.slice (file21p c cfg M S) 128 80).take 72 := by
+      simp [Rom.slice, List.take_take]
+    rw [this, p4, ekb, List.take_left' lkw]
+  have f14 : Rom.certBlockLen (file21p c cfg M S) 208 = .ok cfg.certBlock.length := by
+    rw [hfile]
+    simp only [List.append_assoc]
+    rw [← List.append_assoc, ← List.append_assoc, ← List.append_assoc]
+    exact certBlockLen_embed _ _ _ wcert 208 (by simp only [List.length_append, lH, lM, lkb])
+  have f15 : Rom.readImageHdr (file21p c cfg M S) = .ok (hd21 cfg) := by
+    rw [hfile]
+    simp only [List.append_assoc]
+    rw [readImageHdr_encode _ hok, hrom]
+  have hstop : Spec.fileLen21 cfg / 16 * 16 = (file21p c cfg M S).length := by
+    rw [f1, fileLen21_sha]; have := shaLen21_cases cfg; omega
+  have hstart : (208 + cfg.certBlock.length + shaLen21 cfg + cfg.signature.length) / 16 * 16
+      = 208 + cfg.certBlock.length + shaLen21 cfg + cfg.signature.length := by
+    have := shaLen21_cases cfg; omega
+  generalize hfileg : file21p c cfg M S = file at *
+  generalize hhd : hd21 cfg = hd at f15
+  have ⟨g1, g2, g3, g4, g5, g6, g7, g8, g9, g10, g11⟩ : hd.major = 2 ∧ hd.minor = 1 ∧ hd.flags = cfg.flags ∧
+      hd.headerBlocks = 6 ∧ hd.offsetToCert = 208 ∧ hd.keyBlobBlock = 8 ∧ hd.keyBlobBlockCount = 5 ∧
+      hd.firstBootTagBlock = (208 + cfg.certBlock.length + shaLen21 cfg + cfg.signature.length) / 16 ∧
+      hd.imageBlocks = Spec.fileLen21 cfg / 16 ∧ hd.nonce = cfg.nonce ∧
+      hd.firstBootSectionId = (cfg.sections.head?.map (·.uid)).getD 0 := by
+    subst hhd; exact ⟨rfl, rfl, rfl, rfl, rfl, rfl, rfl, rfl, rfl, rfl, rfl⟩
+  have hbsO : cfg.bsOffset21 = 208 + cfg.certBlock.length + shaLen21 cfg + cfg.signature.length := bsOffset21_eq cfg
+  -- common prefix of both claims: the ROM reaches the SHA comparison
+  have reach : Rom.romV21 c cfg.kek file =
+      (if (decide (cfg.flags / 32768 % 2 = 1) &&
+            Rom.slice file (208 + cfg.certBlock.length + shaLen21 cfg - 32) 32 != c.hash .sha256 (cfg.bsData21 c)) = true
+       then .error .badSha
+       else match Rom.readSections c cfg.dek cfg.mac cfg.nonce file file.length (file.length / 16 + 1)
+              (208 + cfg.certBlock.length + shaLen21 cfg + cfg.signature.length) with
+        | .error e => .error e
+        | .ok ss =>
+          match ss with
+          | [] => .error .badLayout
+          | s0 :: _ =>
+            if Rom.slice file 96 32 ≠ hmac c .sha256 cfg.mac
+                (Rom.slice file (208 + cfg.certBlock.length + shaLen21 cfg + cfg.signature.length + 16) (32 * (s0.hmacCount + 1))) then
+              .error .badHeaderMac
+            else if s0.uid ≠ (cfg.sections.head?.map (·.uid)).getD 0 then .error .badLayout
+            else .ok (Rom.mkContent hd cfg.dek cfg.mac ss (208 + cfg.certBlock.length + shaLen21 cfg)
+              (Rom.slice file (208 + cfg.certBlock.length + shaLen21 cfg)
+                (208 + cfg.certBlock.length + shaLen21 cfg + cfg.signature.length - (208 + cfg.certBlock.length + shaLen21 cfg)))
+              (Rom.slice file 208 cfg.certBlock.length))) := by
+    unfold Rom.romV21
+    rw [f15]
+    simp only [g1, g2, g3, g4, g5, g6, g7, g8, g9, g10, g11, Spec.flagSigned, Spec.imageHeaderSize, Spec.flagSha,
+      Spec.shaSize, Spec.macSize, flags_sha_iff, ← shaLen21.eq_1, hstart, hstop]
+    rw [if_neg (by omega), if_neg ((flags_signed_iff cfg.flags).2 wsg), if_neg (by omega)]
+    rw [readKeys_ok h cfg.kek cfg.dek cfg.mac file hd g6 g7 (by omega) f8 wdek wmac]
+    simp only []
+    rw [f14]
+    simp only []
+    rw [if_neg (by omega)]
+    have hbs : Rom.slice file (208 + cfg.certBlock.length + shaLen21 cfg + cfg.signature.length)
+        (file.length - (208 + cfg.certBlock.length + shaLen21 cfg + cfg.signature.length)) = cfg.bsData21 c := by
+      unfold Rom.slice; rw [f12]; exact List.take_of_length_le (by omega)
+    rw [hbs]
+    rfl
+  constructor
+  · intro hS
+    rw [reach]
+    rcases shaLen21_cases cfg with ⟨hs, hl⟩ | ⟨hs, hl⟩
+    · have hsf : shaField21 c cfg = c.hash .sha256 (cfg.bsData21 c) := by
+        unfold shaField21; rw [if_pos ((shaPresent_iff cfg).2 hs)]
+      rw [hl] at f10 ⊢
+      rw [show 208 + cfg.certBlock.length + 32 - 32 = 208 + cfg.certBlock.length by omega, f10]
+      rw [if_pos (by rw [hsf] at hS; simp [hs, hS])]
+    · exfalso
+      apply hS
+      have : shaField21 c cfg = [] := by unfold shaField21; rw [if_neg (by rw [shaPresent_iff]; exact hs)]
+      rw [this]
+      exact List.eq_nil_of_length_eq_zero (by rw [lS, hl])
+  · intro hS hM
+    rw [reach]
+    have hsha : (decide (cfg.flags / 32768 % 2 = 1) &&
+        Rom.slice file (208 + cfg.certBlock.length + shaLen21 cfg - 32) 32 != c.hash .sha256 (cfg.bsData21 c)) = false := by
+      rcases shaLen21_cases cfg with ⟨hs, hl⟩ | ⟨hs, hl⟩
+      · rw [hl] at f10 ⊢
+        rw [show 208 + cfg.certBlock.length + 32 - 32 = 208 + cfg.certBlock.length by omega, f10, hS]
+        unfold shaField21; rw [if_pos ((shaPresent_iff cfg).2 hs)]
+        simp
+      · simp [hs]
+    rw [hsha]
+    simp only [Bool.false_eq_true, if_false]
+    generalize hst : 208 + cfg.certBlock.length + shaLen21 cfg + cfg.signature.length = start at *
+    have hpre : file = file.take start ++ cfg.bsData21 c ++ [] := by
+      rw [List.append_nil, ← f12, List.take_append_drop]
+    have lpre : (file.take start).length = start := by rw [List.length_take]; omega
+    have hrs := readSections_buildSections h cfg.dek cfg.mac cfg.nonce [] cfg.sections wsec (file.take start)
+      (by rw [lpre]; omega) (file.length / 16 + 1) (by have := sections_length_le cfg.sections wsec; omega)
+    have hbsd : cfg.bsData21 c = buildSections c cfg.dek cfg.mac cfg.nonce (nonceCtr cfg.nonce + start / 16) cfg.sections := by
+      unfold Cfg.bsData21; rw [hbsO]
+    rw [lpre, ← hbsd, ← hpre, show start + Spec.sectionsLen cfg.sections = file.length by omega] at hrs
+    rw [hrs]
+    obtain ⟨s, rest, hss⟩ : ∃ s rest, cfg.sections = s :: rest := by
+      cases hc : cfg.sections with
+      | nil => exact absurd hc wne
+      | cons s rest => exact ⟨s, rest, rfl⟩
+    have ⟨em, _, _⟩ := effHmacCount_eq s (wsec s (by rw [hss]; simp))
+    have hmac0 : hmacField21 c cfg =
+        hmac c .sha256 cfg.mac (Rom.slice file (start + 16) (32 * ((Spec.expectedSection s).hmacCount + 1))) := by
+      unfold hmacField21
+      rw [hss]
+      simp only [List.head?_cons, Option.map_some, Option.getD_some, hmac256, Spec.expectedSection, Rom.slice]
+      rw [← f12, List.drop_drop, em, show 32 * (Spec.macCount s + 1) = Spec.macCount s * 32 + 32 by omega]
+    simp only [hss, List.map_cons]
+    rw [if_pos (by rw [f6, ← hmac0]; exact hM)]
+
+/-- one changed byte inside the header-MAC field of an SB 2.1 file: always refused -/
+theorem romV21_hmac_byte_tampered (h : CryptoLaws c) (cfg : Cfg) (wf : Spec.WF21 cfg) (i : Nat) (v : UInt8)
+    (h1 : 96 ≤ i) (h2 : i < 128) (hv : some v ≠ (buildV21 c cfg)[i]?) :
+    Rom.romV21 c cfg.kek ((buildV21 c cfg).set i v) = .error .badHeaderMac := by
+  have lH : (encodeImageHdr cfg.header21).length = 96 := encodeImageHdr_length _ wf.2.2.1 wf.2.2.2.1
+  have lM : (hmacField21 c cfg).length = 32 := hmac256_length h _ _
+  have lS : (shaField21 c cfg).length = shaLen21 cfg := by
+    unfold shaField21 shaLen21
+    by_cases hs : cfg.flags / 0x8000 % 2 = 1
+    · rw [if_pos ((shaPresent_iff cfg).2 hs), if_pos hs, h.hash_len]; rfl
+    · rw [if_neg (by rw [shaPresent_iff]; exact hs), if_neg hs]; rfl
+  have e : buildV21 c cfg = encodeImageHdr cfg.header21 ++ hmacField21 c cfg ++
+      (keyBlob c cfg.kek cfg.dek cfg.mac ++ (cfg.certBlock ++ (shaField21 c cfg ++ (cfg.signature ++ cfg.bsData21 c)))) := by
+    rw [buildV21_eq_file21p]; unfold file21p; simp only [List.append_assoc]
+  rw [e] at hv ⊢
+  rw [set_mid' _ _ _ i v (by rw [lH]; exact h1) (by rw [lH, lM]; omega), lH]
+  rw [List.getElem?_append_left (by rw [List.length_append, lH, lM]; omega),
+    List.getElem?_append_right (by rw [lH]; exact h1), lH] at hv
+  have hne := set_ne_self (hmacField21 c cfg) (i - 96) v (by rw [lM]; omega) hv
+  have key := (romV21_fields_replaced h cfg wf ((hmacField21 c cfg).set (i - 96) v) (shaField21 c cfg)
+    (by rw [List.length_set, lM]) lS).2 rfl hne
+  unfold file21p at key
+  simpa only [List.append_assoc] using key
+
+/-- one changed byte inside the SHA-256 field (flag 0x8000) of an SB 2.1 file: always refused -/
+theorem romV21_sha_byte_tampered (h : CryptoLaws c) (cfg : Cfg) (wf : Spec.WF21 cfg) (i : Nat) (v : UInt8)
+    (h1 : 208 + cfg.certBlock.length ≤ i) (h2 : i < 208 + cfg.certBlock.length + shaLen21 cfg)
+    (hv : some v ≠ (buildV21 c cfg)[i]?) :
+    Rom.romV21 c cfg.kek ((buildV21 c cfg).set i v) = .error .badSha := by
+  have lH : (encodeImageHdr cfg.header21).length = 96 := encodeImageHdr_length _ wf.2.2.1 wf.2.2.2.1
+  have lM : (hmacField21 c cfg).length = 32 := hmac256_length h _ _
+  have ⟨_, lkb, _⟩ := keyBlob_eq h cfg.kek cfg.dek cfg.mac wf.1 wf.2.1
+  have lS : (shaField21 c cfg).length = shaLen21 cfg := by
+    unfold shaField21 shaLen21
+    by_cases hs : cfg.flags / 0x8000 % 2 = 1
+    · rw [if_pos ((shaPresent_iff cfg).2 hs), if_pos hs, h.hash_len]; rfl
+    · rw [if_neg (by rw [shaPresent_iff]; exact hs), if_neg hs]; rfl
+  have lP : (encodeImageHdr cfg.header21 ++ hmacField21 c cfg ++ keyBlob c cfg.kek cfg.dek cfg.mac ++ cfg.certBlock).length
+      = 208 + cfg.certBlock.length := by
+    simp only [List.length_append, lH, lM, lkb]
+  have e : buildV21 c cfg = (encodeImageHdr cfg.header21 ++ hmacField21 c cfg ++ keyBlob c cfg.kek cfg.dek cfg.mac ++ cfg.certBlock) ++
+      shaField21 c cfg ++ (cfg.signature ++ cfg.bsData21 c) := by
+    rw [buildV21_eq_file21p]; unfold file21p; simp only [List.append_assoc]
+  rw [e] at hv ⊢
+  have hidx : i - (encodeImageHdr cfg.header21 ++ hmacField21 c cfg ++ keyBlob c cfg.kek cfg.dek cfg.mac ++ cfg.certBlock).length
+      = i - (208 + cfg.certBlock.length) := by rw [lP]
+  rw [set_mid' _ _ _ i v (by rw [lP]; exact h1) (by rw [lP, lS]; omega), hidx]
+  rw [List.getElem?_append_left (by rw [List.length_append, lP, lS]; omega),
+    List.getElem?_append_right (by rw [lP]; exact h1), hidx] at hv
+  have hne := set_ne_self (shaField21 c cfg) (i - (208 + cfg.certBlock.length)) v (by rw [lS]; omega) hv
+  have key := (romV21_fields_replaced h cfg wf (hmacField21 c cfg) ((shaField21 c cfg).set (i - (208 + cfg.certBlock.length)) v)
+    lM (by rw [List.length_set, lS])).1 hne
+  unfold file21p at key
+  simpa only [List.append_assoc] using key
+
 /-! ## SB 2.0 image: the same, signed (certificate section in front, signature behind) and unsigned -/
 
 /-- a V2.0 file with arbitrary bytes `B` where the boot sections sit -/
